@@ -123,7 +123,8 @@ impl Scenario for C02 {
         let mut policy_cases = Vec::new();
         if rng.chance(1, 2) {
             for policy in 0..5u8 {
-                let workers = rng.urange(1, 6);
+                // every worker count 1..=32 (most of them do not divide the 256 virtual shards)
+                let workers = if rng.chance(1, 2) { rng.urange(1, 6) } else { rng.urange(1, 32) };
                 // dynamic policies claim each of the 256 virtual shards: short cyclic tapes
                 let tape = gen_tape(rng, workers, 8);
                 policy_cases.push(PolicyCase { policy, workers, tape });
